@@ -1222,8 +1222,9 @@ class Router:
                     return None
             # Step 10a: decrement RHL
             new_rhl = basic_header.rhl - 1
-            if new_rhl == 0:
-                # Step 10a(i): RHL reached 0 → discard
+            if new_rhl <= 0:
+                # Step 10a(i): RHL reached 0 → discard (also a packet received with RHL 0:
+                # set_rhl(-1) would otherwise re-transmit it with RHL 255)
                 return None
             updated_basic_header = basic_header.set_rhl(new_rhl)
             # Step 10b: no neighbours AND SCF → buffer in BC forwarding packet buffer (stub)
